@@ -18,7 +18,10 @@ TEXT = ("Inside every callback invocation orig_size + n_added - n_deleted == evb
         "operation (immediate callbacks) resp. after the deferred run, the sums of n_added / n_deleted over all invocations equal the bytes the "
         "byte-string model says were added / removed while the callback was enabled; disabled callbacks are never called; a self-removing "
         "callback is called at most once.")
-NOTE = C12.NOTE
+NOTE = ("Trusted base as C12. Recorded finding KF-C13-nodefer (open, not a local repair): NODEFER callbacks on an evbuffer with deferred callbacks "
+        "get earlier changes reported again until the deferred callback runs (counters are not cleared in the immediate pass); cb2_* obligations "
+        "assume the predicate away only for the NODEFER sum equality, kf_nodefer_* must keep failing as predicted. The C14 fixes "
+        "(prepend partial copy, add_buffer_reference OOM) also remove wrong callback reports for failed operations.")
 ASSUMPTIONS = C12.ASSUMPTIONS + ["event_deferred_cb_schedule_ records the request (returns 1 once until run), the harness runs evbuffer_deferred_callback after the prefix and after the final step",
                                  "bytes added/removed per operation are those of ref/bytes.h (append/prepend count as added, drain/remove/readln/move-out as removed)"]
 DESIGN_REF = "DESIGN.md §5 C13"
